@@ -157,6 +157,16 @@ def eval_expr(I, st, env, e, frame):
     if isinstance(e, ast.ListComp):
         from .loops import listcomp
         return listcomp(I, st, env, e, frame)
+    if isinstance(e, ast.GeneratorExp):
+        # evaluated eagerly: element expressions of the package's generator expressions are effect free
+        from .loops import listcomp
+        out = []
+        for (s2, v) in listcomp(I, st, env, e, frame):
+            if isinstance(v, Obj) and v.oid in s2.seqs:
+                out.append((s2, IterV(s2.seqs[v.oid], 'genexp')))
+            else:
+                out.append((s2, v))
+        return out
     if isinstance(e, ast.Lambda):
         return [(st, FuncV(frame.mod, e))]
     if isinstance(e, ast.Starred):
